@@ -39,6 +39,13 @@ package prefix
 //@   requires data != nil && regManager != nil && t.TagObfuscator != nil
 //@   ensures @C02: result1 == nil ==> (exists s string :: s in validRegs(regManager, originalDst) && result0 == validRegs(regManager, originalDst)[s]) && regTransport(result0) == 4
 //@   ensures @C02 @C03: result1 != nil ==> result0 == nil && bufStr(data) == old(bufStr(data))
+// C02 "a first flight produced for a different prefix than the one registered is never accepted": when the matched
+// registration carries prefix parameters, data is consumed (= the match is accepted) only if they name the prefix under
+// which the tag was found; C04: what is consumed is exactly that prefix's offset plus the 32-byte tag.
+//@   atcall Registration).TransportParams after: snap tp := res
+//@   atcall Registration).TransportType after: snap tt := res
+//@   atcall Buffer).Next before: assert @C02: defined(tt) && tt == 4 && defined(tp) && (!typeis(tp, *pb.PrefixTransportParams) || (unboxptr(tp, *pb.PrefixTransportParams) != nil && ((unboxptr(tp, *pb.PrefixTransportParams).PrefixId == nil && int32(id) == 0) || (unboxptr(tp, *pb.PrefixTransportParams).PrefixId != nil && *unboxptr(tp, *pb.PrefixTransportParams).PrefixId == int32(id)))))
+//@   atcall Buffer).Next before: assert @C04: arg1 == prefix.Offset + minTagLength && arg0 == data
 // C03: the only answers are the four sentinel values - in particular a failing tag reveal or any other internal
 // error is never passed up (the handler would stop reading and sleep, which a prober can observe)
 //@   ensures @C03: result1 != nil ==> result1 == transports.ErrTryAgain || result1 == transports.ErrNotTransport || result1 == ErrIncorrectPrefix || result1 == ErrIncorrectTransport
@@ -52,7 +59,7 @@ package prefix
 //@   requires data != nil && regManager != nil && t.TagObfuscator != nil
 //@   ensures @C02: result2 == nil ==> (exists s string :: s in validRegs(regManager, originalDst) && result0 == validRegs(regManager, originalDst)[s]) && regTransport(result0) == 4
 //@   ensures @C02 @C03: result2 != nil ==> result0 == nil && result1 == nil && bufStr(data) == old(bufStr(data))
-//@   ensures @C03: old(len(bufStr(data))) < 32 ==> result2 == transports.ErrTryAgain
+//@   ensures @C03: old(len(bufStr(data))) < minTagLength ==> result2 == transports.ErrTryAgain
 //@   ensures @C03: result2 != nil ==> result2 == transports.ErrTryAgain || result2 == transports.ErrNotTransport || result2 == ErrIncorrectPrefix || result2 == ErrIncorrectTransport
 //@   assigns bufStr(data), obj(data)
 
